@@ -55,16 +55,23 @@
 (*         (MPanicClose), the deferred flush() runs (MPFlushBegin, MPFlushEnd), then       *)
 (*         handler.Server.ServeHTTP's recover writes a bare JSON error     *)
 (*         object into the stream (MBlobBegin, MBlobEnd: token `blob`; no `complete`).   *)
-(*   mm    the payload is only encoded by aggregator.flush.  In Done's     *)
-(*         flush (handler goroutine) the panic is recovered like above:    *)
-(*         the bytes flush wrote before the part's JSON stay on the wire   *)
-(*         (FlushOutFail), then the blob, no closing boundary.  In the     *)
-(*         TICKER goroutine's flush nothing recovers it: the process dies  *)
-(*         (crashed; NoCrash - refuted for the code as it is, see          *)
-(*         MC_Stream_mmfail.cfg and known_findings.d/C12.json).            *)
-(*   MmEncodeInAdd = TRUE  the proposed repair: Add encodes the payload on *)
-(*         the handler goroutine (and so owns the bytes), a failure is a   *)
-(*         recovered panic of the request, never of the process.           *)
+(*   mm    MmEncodeInAdd = TRUE - the code as it is since a4760cc: Add     *)
+(*         encodes the payload on the handler goroutine (and so owns the   *)
+(*         bytes); a failure panics there, the deferred Done runs          *)
+(*         (`done <- true`, WAIT for the ticker goroutine to exit, flush   *)
+(*         what is pending - all of it encodable, hasNext:true, so it ends *)
+(*         with an ordinary boundary), the panic is recovered by           *)
+(*         handler.Server like above: blob, no closing boundary.  Never a  *)
+(*         death of the process (NoCrash), and the ticker goroutine is     *)
+(*         gone before the handler returns (MmTickerStoppedAtReturn).      *)
+(*   MmEncodeInAdd = FALSE  the design before a4760cc, kept as a           *)
+(*         regression of the SPEC (MC_Stream_mmfail.cfg, must-fail runs):  *)
+(*         the payload is only encoded by aggregator.flush.  In Done's     *)
+(*         flush the panic is recovered (what flush wrote before the       *)
+(*         part's JSON stays on the wire: FlushOutFail; then the blob).    *)
+(*         In the TICKER goroutine's flush nothing recovers it: the        *)
+(*         process dies (crashed) - also after the handler returned, when  *)
+(*         the ticker takes a pending tick instead of `done`.              *)
 (*                                                                         *)
 (* A HISTORY of requests on one handler.  req counts the requests a        *)
 (* handler (process) has served; NextRequest starts the next one when the  *)
@@ -98,7 +105,7 @@ CONSTANTS
   FailSet,     \* positions of the payload whose serialization fails that a request may choose; 0 = none
   MaxReq,      \* requests served one after the other by the same handler (history length)
   SharedBuf,   \* deviating design: serialization scratch shared between the requests of a handler
-  MmEncodeInAdd \* proposed repair: multipart encodes in Add (handler goroutine), not in flush
+  MmEncodeInAdd \* TRUE = a4760cc: multipart encodes in Add (handler goroutine), Done waits for the ticker goroutine; FALSE = before
 
 VARIABLES
   kind, n, ka,
@@ -415,7 +422,7 @@ MMRecvAdd ==
   /\ kind = "mm" /\ mpc = "recv" /\ got < n + 1
   /\ got' = got + 1
   /\ IF MmEncodeInAdd /\ got + 1 = failAt
-     THEN \* proposed repair: Add encodes - and panics - on the handler goroutine; the deferred Done runs
+     THEN \* a4760cc: Add encodes - and panics - on the handler goroutine; the deferred Done runs
           /\ mpc' = "pdsig" /\ UNCHANGED <<aInit, aDef>>
      ELSE /\ mpc' = mpc
           /\ IF got = 0 THEN aInit' = TRUE /\ aDef' = aDef
@@ -438,6 +445,7 @@ MMDoneSig ==
 \* goroutine and is recovered by handler.Server: MBlobBegin, MBlobEnd)
 MMDoneFlush ==
   /\ kind = "mm" /\ mpc \in {"dflush", "pdflush"}
+  /\ MmEncodeInAdd => tpc = "stopped"      \* a4760cc: `<-a.stopped` between `a.done <- true` and the final flush
   /\ DoFlush
   /\ mpc' = (IF FailIn \/ mpc = "pdflush" THEN "rec" ELSE "returned")
   /\ UNCHANGED <<hvars, kind, n, ka, cancelled, disc, got, tick, nticks, ssevars, dsig, tpc>>
@@ -558,6 +566,8 @@ SseFailed ==
 NoGarbage == \A i \in 1..Len(sink) : sink[i].k # "bad"
 \* a payload that cannot be encoded fails its request, never the process
 NoCrash == ~crashed
+\* the aggregator's ticker goroutine never outlives the handler (so it cannot write to a finished request)
+MmTickerStoppedAtReturn == (kind = "mm" /\ mpc \in {"rec", "bw1", "returned"}) => tpc = "stopped"
 PingsOnlyIfConfigured == (kind = "sse" /\ ~ka) => \A i \in 1..Len(sink) : sink[i].k # "ping"
 
 \* multipart: the token automaton  ( bnd hdr json )+ with bnd / close between and at the end
